@@ -572,7 +572,9 @@ check_averaging(Ctx& x, AcqRec& a, bool complete)
 const char*
 hang_prop(Ctx& x)
 {
-    if (vh_focus && (!strcmp(vh_focus, "C08") || !strcmp(vh_focus, "C03")))
+    // (not after a configure-while-running: the harness' own tier-B programs can stall an acquisition by
+    // design, e.g. by switching to trigger mode mid-run and then waiting in acquire_stop)
+    if (vh_focus && ((!strcmp(vh_focus, "C08") && !x.tier_b) || !strcmp(vh_focus, "C03")))
         return vh_focus; // C03 (integration part): a writer blocked in channel_write_map that is never released
     return x.any_fault_in_case ? "C09" : "C07";
 }
